@@ -6,6 +6,9 @@
 //	            boundary-biased samples up to 130 bits
 //	c07 corr    correspondence ops: canonical cc.Gates dumps (T4), sample
 //	            evaluations (T3) and compiled circuits for the Lean evaluator
+//	c07 hist    builder histories on ONE circuits.Compiler (hist.go, histgen.go)
+//	c07 prog    MPCL programs with several operations in one function (prog.go)
+//	c07 hone    one history on one input vector; c07 replay <file>: a recorded case
 //	c07 one     replay a single case: -extra "<builder> <target> <pro> <nx> <ny> <nw> <nz> <par> <opt> <x> <y> <w>"
 package main
 
@@ -691,6 +694,32 @@ func runJobs(jobs []job, f func(j job) *jobResult) []*jobResult {
 	return res
 }
 
+// runJobsG runs n independent jobs on the worker pool.
+func runJobsG(n int, f func(i int) *jobResult) []*jobResult {
+	res := make([]*jobResult, n)
+	var wg sync.WaitGroup
+	ch := make(chan int, n)
+	for i := 0; i < n; i++ {
+		ch <- i
+	}
+	close(ch)
+	nw := runtime.NumCPU()
+	if nw > 16 {
+		nw = 16
+	}
+	for w := 0; w < nw; w++ {
+		wg.Add(1)
+		go func() {
+			defer wg.Done()
+			for i := range ch {
+				res[i] = f(i)
+			}
+		}()
+	}
+	wg.Wait()
+	return res
+}
+
 func collect(o *hxlib.Out, results []*jobResult) {
 	agg := map[string]*failRec{}
 	var order []string
@@ -937,14 +966,43 @@ func runOne(o *hxlib.Out, extra string) {
 
 func main() {
 	if len(os.Args) < 2 {
-		fmt.Println("usage: c07 oracle|corr|one ...")
+		fmt.Println("usage: c07 oracle|corr|hist|prog|one|hone|replay ...")
 		os.Exit(2)
 	}
 	mode := os.Args[1]
+	if mode == "replay" {
+		// c07 replay <replay file>: exactly the recorded case
+		if len(os.Args) < 3 {
+			fmt.Println("usage: c07 replay <file>")
+			os.Exit(2)
+		}
+		_, o := hxlib.ParseCommon("c07", nil, nil)
+		runReplay(o, os.Args[2])
+		o.Close()
+		return
+	}
 	cf, o := hxlib.ParseCommon("c07", os.Args[2:], nil)
 	defer o.Close()
 	_ = circuit.XOR
 	switch mode {
+	case "hist":
+		// builder histories on one circuits.Compiler: T4/T3 op lines + oracle
+		only := ""
+		if strings.HasPrefix(cf.Extra, "only=") {
+			only = cf.Extra[5:]
+		}
+		jobs := histJobs(cf, only)
+		o.CountN("hist_jobs", len(jobs))
+		collect(o, runJobsG(len(jobs), func(i int) *jobResult { return runHist(jobs[i]) }))
+	case "prog":
+		jobs := progJobs(cf)
+		o.CountN("prog_jobs", len(jobs))
+		collect(o, runJobsG(len(jobs), func(i int) *jobResult { return runProg(jobs[i]) }))
+	case "hone":
+		if !runHOne(o, cf.Extra) {
+			o.Close()
+			os.Exit(1)
+		}
 	case "oracle":
 		only := ""
 		if strings.HasPrefix(cf.Extra, "only=") {
